@@ -3,7 +3,7 @@
 From Coq Require Import List ZArith Lia Bool.
 Require Import Avro.Model.Base Avro.Model.Prim Avro.Model.Schema Avro.Model.GoType
   Avro.Model.Spec Avro.Model.Codec Avro.Model.Denote Avro.Model.Container Avro.Model.Writer.
-Require Import Avro.Proofs.SpecP Avro.Proofs.RoundTrip Avro.Proofs.ContainerP Avro.Proofs.WriterP Avro.Proofs.FileP.
+Require Import Avro.Proofs.Wire Avro.Proofs.BuildP Avro.Proofs.ReadP Avro.Proofs.SpecP Avro.Proofs.RoundTrip Avro.Proofs.ContainerP Avro.Proofs.WriterP Avro.Proofs.FileP.
 Import ListNotations.
 Open Scope Z_scope.
 
@@ -59,3 +59,59 @@ Section EndToEnd.
     eapply Forall_impl; [|exact Hw]. intros r (v' & Hr). exact (proj1 (written_decodes r v' Hr)).
   Qed.
 End EndToEnd.
+
+(* Files written by any conforming writer: blocks whose payloads are
+   concatenations of arbitrary specification encodings (any block structure for
+   arrays and maps, with or without byte sizes) of well-typed datums that have
+   an image in the reader's destination. *)
+Section ForeignFile.
+  Variable reg : registry.
+  Variable s : schema.
+  Variable t : option gtype.
+  Variable om : bool.
+  Variable c : codec.
+  Hypothesis Hbuild : build reg s t om = Some c.
+  Variable fuel : nat.
+  Variable dest : gval.
+
+  (* r is some specification encoding of a typed datum that fits the target *)
+  Definition spec_record (r : bytes) (v' : gval) : Prop :=
+    exists d ch, typed s d = true /\ (3 * dmax d + 1 <= fuel)%nat /\ len (spec_encode ch s d) < two63 /\
+                 Z.of_nat (dmax d) < two63 /\ r = spec_encode ch s d /\ apply_datum c dest d = Some v'.
+
+  Lemma spec_record_decodes r v' : spec_record r v' ->
+    rec_decodes (rr c fuel dest) r /\ forall rest, rv c fuel dest (r ++ rest) = Some v'.
+  Proof.
+    intros (d & ch & Ht & Hf & Hl & Hm & -> & Ha).
+    pose proof (build_wire _ _ _ _ _ Hbuild) as W.
+    assert (Hr : forall rest, c_read fuel c dest (spec_encode ch s d ++ rest) = Done v' rest).
+    { intros rest. eapply read_complete; [exact W| |exact Ha]. apply sd_spec_encode; assumption. }
+    split; intros rest; [unfold rr|unfold rv]; rewrite Hr; reflexivity.
+  Qed.
+
+  Variable decompress : bytes -> option bytes.
+  Variable sync : bytes.
+  Hypothesis Hsync : len sync = 16.
+
+  (* a block as any writer may lay it out: count, stored bytes, and the payload they decompress to *)
+  Definition foreign_block_ok (b0 : vblock) : Prop :=
+    decompress (vb_raw b0) = Some (vb_payload b0) /\
+    (exists recs, length recs = vb_count b0 /\ vb_payload b0 = concat recs /\
+                  Forall (fun r => exists v', spec_record r v') recs) /\
+    Z.of_nat (vb_count b0) < two63 /\ len (vb_raw b0) < two63.
+
+  Theorem foreign_file_reads : forall bl bfuel,
+    Forall foreign_block_ok bl -> (length bl < bfuel)%nat ->
+    read_blocks decompress (rr c fuel dest) (fun _ => None) bfuel sync 0 (concat (map (vb_bytes sync) bl))
+    = (total bl, FOk).
+  Proof.
+    intros bl bfuel Hok Hf.
+    rewrite (read_blocks_valid decompress (rr c fuel dest) (fun _ => None) sync Hsync bl bfuel 0); [reflexivity| |exact Hf].
+    clear Hf. generalize 0%nat as idx. induction Hok as [|b0 bl Hb _ IH]; intros idx; cbn [vbs_ok]; [exact I|]. split; [|apply IH].
+    destruct Hb as (Hd & (recs & Hn & Hp & Hr) & Hc & Hl).
+    refine (conj Hd (conj _ (conj _ (conj Hc Hl)))).
+    - rewrite Hp, <- Hn. rewrite <- (app_nil_r (concat recs)). apply recs_ok_concat.
+      eapply Forall_impl; [|exact Hr]. intros r (v' & Hrv). exact (proj1 (spec_record_decodes r v' Hrv)).
+    - intros i _. reflexivity.
+  Qed.
+End ForeignFile.
